@@ -7,6 +7,7 @@ SELECT = r'^bluetoe::nrf52_details::|^bluetoe::details::security_manager_base::l
 UNITS = lambda u: u in ('nrf_security_tool_box', 'nrf_nrf52', 'w_inst_sm')
 NS = 'bluetoe::nrf52_details::'
 TB = NS + 'security_tool_box::'
+EXACT = ('formula',)   # verdicts computed from the meaning of the code (compiler / folding / symbolic terms): not gated by the golden structure
 META = {
     'level': 'symbolic term extraction (no execution): each toolbox function is straight-line code over 16 byte blocks; the analysis interprets its statements abstractly - std::copy / element stores with constant '
              'offsets give every byte of a local buffer a symbolic origin (parameter byte, constant, address type), aes_le / xor_ / the CMAC sub-key generators are uninterpreted symbols, static helpers '
